@@ -41,4 +41,10 @@ def ok (cs : List Call) (idsOps : List Nat) (idsAssigns realPos ipStrPos : Nat) 
   -- the id list
   decide (0 < idsAssigns) && !idsOps.isEmpty && idsOps.all (fun o => o == 1 || o == 2) && idsOps.contains 1
 
+/-- One anonymizer on the start-up path: `config.anonymizer()` is called exactly
+once in package home, and the variable holding it is both the query log's
+`Config.Anonymizer` (the one the config handlers switch) and the argument of
+`initDNSServer` (the one `processQueryLogsAndStats` applies). -/
+def singleAnonymizer (calls toQlog toServer : Nat) : Bool := calls == 1 && toQlog == 1 && toServer == 1
+
 end AGH.C08.Facts
